@@ -84,7 +84,7 @@ def has_xattr_probe(ctx):
     f = ctx.fn1("Oomd::Fs::hasxattrAt")
     ctx.use(f)
     fl = Flow(P, f, cg=ctx.cg)
-    FAILK = re.compile(r"^\((-1 == (\w+)|(\w+) == -1|(\w+) < 0)\)$")
+    FAILK = re.compile(r"^\((-1 == (\w+|(::)?fgetxattr\(.*\))|(\w+|(::)?fgetxattr\(.*\)) == -1|(\w+|(::)?fgetxattr\(.*\)) < 0)\)$")
     seen = set()
     for r in returns(f):
         t = ret_text(f, r)
